@@ -186,7 +186,17 @@ def apply_variant(e, spec, comp):
     return vbias
 
 
+_TOK_CACHE = {}
+
+
 def describe_tokens(desc, facts):
+    key = (id(desc.get('pcln')), id(desc.get('syms')), desc.get('open', True), desc.get('elf', True), desc['text'], facts['mf'], facts['mv'])
+    if key not in _TOK_CACHE:
+        _TOK_CACHE[key] = _describe_tokens(desc, facts)
+    return _TOK_CACHE[key]
+
+
+def _describe_tokens(desc, facts):
     t = [f'mf={facts["mf"]:#x}', f'mv={facts["mv"]:#x}', 'af=' + esc(AF), 'av=' + esc(AV), ('elf=noopen' if desc.get('open') is False else 'elf=ok' if desc.get('elf', True) else 'elf=bad'),
          'text=-' if desc['text'] is None else f'text={desc["text"]:#x}']
     if desc['pcln'] is None:
@@ -550,16 +560,19 @@ def allfuncs_histories(cases, comp, rng, tier):
     listings must be unaffected."""
     hs = []
     for case in cases:
-        if not (case['variant'] == 'as-linked' or case['variant'] in FULL_SWEEP_VARIANTS or tier == 'thorough'):
+        if not (case['variant'] == 'as-linked' or case['variant'] in FULL_SWEEP_VARIANTS):
             continue
         r = rng.fork('q-allfuncs-' + case['id'])
         fnl = list(case['fnames_raw']) or [x.encode() for x in comp['funcs']]
         k = 40 if tier == 'quick' else 400
-        q = [('a:none', 'allfuncs')] if r.below(2) else []          # also: AllFunctions as the very first call of the process
+        q = [('a:none', 'allfuncs')] if r.below(2) and tier == 'quick' else []          # also: AllFunctions as the very first call of the process
         q += small_queries(case, comp, r, 8, 2)
         victim = fnl[r.below(len(fnl))]
-        for edit in ('a:del=' + esc(victim), 'a:add=' + esc(PKG.encode() + b'.zzNoSuchFunc'), 'a:keep=' + esc(r.choice([b'runtime.', PKG.encode(), b'zz'])),
-                     'a:clear', 'a:none'):
+        edits = ['a:del=' + esc(victim), 'a:add=' + esc(PKG.encode() + b'.zzNoSuchFunc'), 'a:keep=' + esc(r.choice([b'runtime.', PKG.encode(), b'zz'])),
+                 'a:clear', 'a:none']
+        if tier == 'thorough':          # see conc_histories: a listing costs the model ~13 s on the 38k-function table
+            edits = [edits[r.below(3)], 'a:clear']
+        for edit in edits:
             q.append((edit, 'allfuncs'))
             q += [('f:' + esc(victim), 'func'), ('x:' + esc(victim), 'expose'), ('f:' + esc(PKG.encode() + b'.zzNoSuchFunc'), 'miss-made-up')]
             q += small_queries(case, comp, r, k, k // 10)
@@ -574,8 +587,9 @@ def allfuncs_histories(cases, comp, rng, tier):
 def conc_histories(cases, comp, rng, tier):
     """Concurrent first use: N goroutines released from a spin barrier, each doing its first lookup, on executables whose
     slide is not zero (there a lookup that overtakes the once-only initialisation is visibly wrong); fresh process each."""
-    plan = {'ext.as-linked': ((2, 4, 8, 16), 3 if tier == 'quick' else 12), 'sym.text-slide0x1000': ((4, 16), 2 if tier == 'quick' else 8),
-            'sym.both-slides': ((3, 16), 1 if tier == 'quick' else 8)}
+    # (thorough executables have 90k table entries: every extra process costs ~10 s of table parsing on both sides)
+    plan = {'ext.as-linked': ((2, 4, 8, 16), 3 if tier == 'quick' else 4), 'sym.text-slide0x1000': ((4, 16), 2 if tier == 'quick' else 3),
+            'sym.both-slides': ((3, 16), 1 if tier == 'quick' else 2)}
     hs = []
     for case in cases:
         if case['id'] not in plan:
@@ -586,7 +600,11 @@ def conc_histories(cases, comp, rng, tier):
                 h['id'] = f'{case["id"]}.conc{n}.{rep}'
                 h['g'] = n
                 h['queries'] = small_queries(case, comp, rng.fork('q-' + h['id']), 6 * n, n // 2)
-                for j, edit in enumerate(('a:clear', 'a:keep=runtime.', 'a:none')):      # never among the first n: those are the racing first lookups
+                # AllFunctions listings (edited by the caller) among the later calls — never among the first n, those are the racing
+                # first lookups.  The model's distinct-name count is quadratic in the table: with thorough's 38k functions one listing
+                # costs the driver ~13 s, so thorough lists only in the 16-goroutine histories of the externally linked executable.
+                edits = ('a:clear', 'a:keep=runtime.', 'a:none') if tier == 'quick' else (('a:clear',) if (case['id'], n) == ('ext.as-linked', 16) else ())
+                for j, edit in enumerate(edits):
                     h['queries'].insert(n + (j * 2 * n + rep) % (len(h['queries']) - n), (edit, 'allfuncs'))
                 hs.append(h)
     return hs
@@ -612,7 +630,7 @@ def self_histories(cases, comp, rng, tier):
         root = os.geteuid() == 0
         plans = [('delete', ob, None, False), ('delete', 'zzc10tool-' + cid, pdir, False), ('delete', '/no/such/dir/zz garbage', None, False),
                  ('delete', gotool, None, False), ('chmod000', ob, None, root), ('replace-same', ob, None, True)]
-        if tier == 'quick' and cid == 'sym.as-linked':
+        if cid == 'sym.as-linked':
             plans = plans[:2]
         for k, (act, argv0, pd, openable) in enumerate(plans):
             h = dict(case)
